@@ -96,6 +96,7 @@ def check(ctx):
     ctx.attempt(forward.check_all, module_suffixes=('plssdesc.plss_parse', 'plssdesc.plssdesc', 'tract.tract', 'trs.trs'))
     ctx.attempt(emitted_trs_accepted)
     ctx.attempt(common.clause_purity, [f for f in ctx.repo.funcs.values() if f.module.name.endswith(('trs.trs','tract.tract'))])
+    ctx.attempt(common.parallel_shapes, [f for f in ctx.repo.funcs.values() if f.module.name.endswith(('trs.trs','tract.tract'))])
 
 
 def _placeholders(ctx):
